@@ -38,7 +38,7 @@ fn compile(files: &[String]) -> Result<(slicec::compilation_state::CompilationSt
 }
 
 pub fn run() -> i32 {
-    let mut rep = Report::new("scopes", "3 nested module levels x `T` defined at every subset of them x a referencing field at each level x 11 spellings x 2 file orders; the same through an alias with attributes and through chains of two aliases in different modules; wrong-kind targets; members named like their type (3 programs); a module with the scoped name of a definition is rejected (3 programs x 2 orders); chains of three attributed aliases used at every link in 6 field orders x 3 declaration orders x before/after (attributes carried per use); retrieval by scoped name");
+    let mut rep = Report::new("scopes", "3 nested module levels x `T` defined at every subset of them x a referencing field at each level x 11 spellings x 2 file orders; the same through an alias with attributes and through chains of two aliases in different modules; wrong-kind targets; members named like their type (3 programs); a module with the scoped name of a definition is rejected or leaves the definition retrievable (3 programs x 2 orders); chains of three attributed aliases used at every link in 6 field orders x 3 declaration orders x before/after (attributes carried per use); retrieval by scoped name");
     let spellings = ["T", "A::T", "B::T", "C::T", "A::B::T", "B::C::T", "A::B::C::T", "::A::T", "::A::B::T", "::T", "::B::T"];
     for present in 0..8u32 {
         let defined: Vec<String> = (0..3).filter(|l| present & (1 << l) != 0).map(|l| format!("{}::T", LEVELS[l])).collect();
@@ -202,7 +202,13 @@ pub fn run() -> i32 {
                 rep.case(true, || label.clone());
                 match compile(&fs) {
                     Err(m) => rep.counterexample(&label, "a verdict", &m),
-                    Ok((_, errors)) => if errors == 0 { rep.counterexample(&label, "an error: two things with one scoped name", "accepted"); },
+                    // either the clash is rejected, or -- if it is accepted -- every definition involved is still retrievable by its scoped name
+                    Ok((state, errors)) => if errors == 0 {
+                        let lost: Vec<&str> = [("M::S", state.ast.find_element::<Struct>("M::S").is_ok() || !name.contains("struct")), ("M::J", state.ast.find_element::<Interface>("M::J").is_ok() || !name.contains("interface")),
+                            ("M::E", state.ast.find_element::<Enum>("M::E").is_ok() || !name.contains("enum")), ("M::C", state.ast.find_element::<CustomType>("M::C").is_ok() || !name.contains("enum")), ("M::A", state.ast.find_element::<TypeAlias>("M::A").is_ok() || !name.contains("enum"))]
+                            .iter().filter(|(_, ok)| !ok).map(|(n, _)| *n).collect();
+                        if !lost.is_empty() { rep.counterexample(&label, "an error (two things with one scoped name), or every definition still retrievable by its scoped name", &format!("accepted, and {lost:?} cannot be retrieved")); }
+                    },
                 }
             }
         }
@@ -240,7 +246,10 @@ pub fn run() -> i32 {
                             if errors > 0 { rep.counterexample(&label, "accepted", "rejected with an error"); continue; }
                             for (f, _, want) in &uses {
                                 let got: Option<Vec<String>> = state.ast.find_element::<Field>(&format!("M::U::{f}")).ok().map(|fl| fl.data_type().attributes().iter().map(|a| a.kind.directive().to_owned()).collect());
-                                let want: Vec<String> = want.iter().map(|x| x.to_string()).collect();
+                                // exactly these attributes, each once (the property does not fix their order)
+                                let mut want: Vec<String> = want.iter().map(|x| x.to_string()).collect();
+                                want.sort();
+                                let got = got.map(|mut g| { g.sort(); g });
                                 if got.as_ref() != Some(&want) { rep.counterexample(&label, &format!("U::{f}'s type carries {want:?}"), &format!("{got:?}")); }
                             }
                         }
